@@ -107,7 +107,9 @@ impl Engine {
                         continue;
                     }
                 };
-                for hash in hashes {
+                // every hash, then `None`: the reader must be able to tell a complete list from one
+                // that was cut short because this task was aborted (a closed channel looks the same)
+                for hash in hashes.map(|hash| hash.map(Some)).chain([Ok(None)]) {
                     if let Err(_err) = tx.send(hash).await {
                         debug!("protect task: failed to forward hash");
                         break;
@@ -471,14 +473,14 @@ impl DefaultAuthor {
 }
 
 #[derive(Debug)]
-struct ProtectCallbackSender(mpsc::Sender<oneshot::Sender<mpsc::Receiver<Result<Hash>>>>);
+struct ProtectCallbackSender(mpsc::Sender<oneshot::Sender<mpsc::Receiver<Result<Option<Hash>>>>>);
 
 /// The handler for a blobs protection callback.
 ///
 /// See [`ProtectCallbackHandler::new`].
 #[derive(Debug)]
 pub struct ProtectCallbackHandler(
-    pub(crate) mpsc::Receiver<oneshot::Sender<mpsc::Receiver<Result<Hash>>>>,
+    pub(crate) mpsc::Receiver<oneshot::Sender<mpsc::Receiver<Result<Option<Hash>>>>>,
 );
 
 impl ProtectCallbackHandler {
@@ -528,12 +530,17 @@ impl ProtectCallbackSender {
                             tracing::warn!("Getting protected hashes produces error: {err:#}");
                             return ProtectOutcome::Abort;
                         }
-                        Ok(hash) => {
+                        Ok(Some(hash)) => {
                             live.insert(hash);
                         }
+                        // the list is complete
+                        Ok(None) => return ProtectOutcome::Continue,
                     }
                 }
-                ProtectOutcome::Continue
+                // The channel was closed before the end of the list (the docs engine went away):
+                // not all hashes are known, nothing may be collected.
+                tracing::warn!("Getting protected hashes ended before the list was complete");
+                ProtectOutcome::Abort
             })
         })
     }
